@@ -114,6 +114,7 @@ class Connection:
     def __init__(self, path: Path | str) -> None:
         self._path = str(path)
         self._conn: sqlite3.Connection | None = None
+        self._last = ""  # label of the last statement (a commit is labelled with what it commits)
 
     def _w(self) -> DbWorker:
         w = DbWorker.current
@@ -143,6 +144,7 @@ class Connection:
 
         words = sql.split(None, 3)
         label = "execute:" + words[0].upper() + (":" + words[2].split("(")[0] if len(words) > 2 and words[0].upper() == "INSERT" else "")
+        self._last = label
         return await self._w().submit(label, op)
 
     async def executescript(self, sql: str) -> Cursor:
@@ -157,7 +159,7 @@ class Connection:
             assert self._conn is not None, "connection closed"
             self._conn.commit()
 
-        await self._w().submit("commit", op)
+        await self._w().submit("commit:" + self._last, op)
 
     async def rollback(self) -> None:
         def op() -> None:
